@@ -5,19 +5,25 @@
 #[macro_export]
 macro_rules! c15_slice {
     ($name:ident, $unw:expr, $T:ty, $D:ty, $N:expr, $L:expr, be) => {
-        $crate::c15_slice!(@body $name, $unw, $T, $D, $N, $L, from_be_slice, |len: usize, k: usize| len - 1 - k);
+        $crate::c15_slice!(@body $name, $unw, $T, $D, $N, $L, from_be_slice, |len: usize, k: usize| len - 1 - k, { let len: usize = $crate::nd::nd(); $crate::nd::assume(len <= $L); len }, true);
     };
     ($name:ident, $unw:expr, $T:ty, $D:ty, $N:expr, $L:expr, le) => {
-        $crate::c15_slice!(@body $name, $unw, $T, $D, $N, $L, from_le_slice, |_len: usize, k: usize| k);
+        $crate::c15_slice!(@body $name, $unw, $T, $D, $N, $L, from_le_slice, |_len: usize, k: usize| k, { let len: usize = $crate::nd::nd(); $crate::nd::assume(len <= $L); len }, true);
     };
-    (@body $name:ident, $unw:expr, $T:ty, $D:ty, $N:expr, $L:expr, $f:ident, $pos:expr) => {
+    // concrete slice length (every byte symbolic): loop trip counts are constants, which brings widths above 128 bits within reach
+    ($name:ident, $unw:expr, $T:ty, $D:ty, $N:expr, $L:expr, be, $LEN:expr) => {
+        $crate::c15_slice!(@body $name, $unw, $T, $D, $N, $L, from_be_slice, |len: usize, k: usize| len - 1 - k, { let _unused: usize = $crate::nd::nd(); $LEN }, false);
+    };
+    ($name:ident, $unw:expr, $T:ty, $D:ty, $N:expr, $L:expr, le, $LEN:expr) => {
+        $crate::c15_slice!(@body $name, $unw, $T, $D, $N, $L, from_le_slice, |_len: usize, k: usize| k, { let _unused: usize = $crate::nd::nd(); $LEN }, false);
+    };
+    (@body $name:ident, $unw:expr, $T:ty, $D:ty, $N:expr, $L:expr, $f:ident, $pos:expr, $lenx:expr, $sym:expr) => {
         $crate::harness!($name, $unw, {
             use $crate::util::*;
             const BYTES: usize = (<$D>::BITS as usize / 8) * $N;
             const S: bool = <$T as BN<$D, $N>>::SIGNED;
             let buf: [u8; $L] = $crate::nd::nd();
-            let len: usize = $crate::nd::nd();
-            $crate::nd::assume(len <= $L);
+            let len: usize = $lenx;
             let pos = $pos;
             // value byte k of the denoted number (k = 0 least significant)
             let vb = |k: usize| buf[pos(len, k)];
@@ -36,10 +42,15 @@ macro_rules! c15_slice {
                 let e = if q < len { vb(q) } else { pad };
                 assert!(dbyte(&v.dg(), q) == e, "byte q of the value (shorter slices are zero-/sign-extended)");
             }
-            $crate::reach!(len == 0, "empty slice");
-            $crate::reach!(len > BYTES + 1 && fits && neg == S, "longer slice accepted");
-            $crate::reach!(len > BYTES && !fits, "longer slice rejected");
-            $crate::reach!(BYTES == 1 || (len > 0 && len < BYTES && neg == S && (<$D>::BITS == 8 || len % (<$D>::BITS as usize / 8) != 0)), "shorter slice, partial digit");
+            if $sym {
+                $crate::reach!(len == 0, "empty slice");
+                $crate::reach!(len > BYTES + 1 && fits && neg == S, "longer slice accepted");
+                $crate::reach!(len > BYTES && !fits, "longer slice rejected");
+                $crate::reach!(BYTES == 1 || (len > 0 && len < BYTES && neg == S && (<$D>::BITS == 8 || len % (<$D>::BITS as usize / 8) != 0)), "shorter slice, partial digit");
+            } else {
+                $crate::reach!(r.is_some() && neg == S, "accepted (negative for signed types)");
+                $crate::reach!(len <= BYTES || !fits, "longer slice rejected");
+            }
         });
     };
 }
